@@ -43,6 +43,12 @@ var c09Forms = []c09Form{
 	{"was-annotation", func(k, a string) string { return "// was: // @" + k + a + " (removed)" }},
 	{"quoted", func(k, a string) string { return "// \"// @" + k + a + "\" is the syntax" }},
 	{"after-colon", func(k, a string) string { return "// TODO: @" + k + a }},
+	// the keyword in another letter case at the start, and the lowercase keyword mentioned later in the same line
+	{"capitalised-then-mention", func(k, a string) string {
+		return "// @" + strings.ToUpper(k[:1]) + k[1:] + a + " is how the wiki spells it, the tool only knows @" + k + a
+	}},
+	{"upper-case-then-mention", func(k, a string) string { return "//@" + strings.ToUpper(k) + a + " (see @" + k + ")" }},
+	{"mention-then-keyword-in-word", func(k, a string) string { return "// see @" + k + a + "; x@" + k + a }},
 	// a block comment one of whose LINES looks like an annotation comment (a quoted usage snippet)
 	{"block-with-annotation-line", func(k, a string) string { return "/*\n// @" + k + a + "\n*/" }},
 	{"block-with-indented-annotation-line", func(k, a string) string { return "/* usage:\n\t// @" + k + a + "\n   more prose */" }},
